@@ -486,8 +486,32 @@ def check(repo):
     # ---------------------------------------------------------------- R9.9 the links the round trip is composed of
     r9 = Rule("R9.9", "the links of the round trip hold: wire formats of what travels, the server's and the client's state keeping")
     rules.append(r9)
-    from . import c03, c10, c11
-    for mod, ids, what in ((c03, ("R3.1",), "token / result / index wire format"),
+    from . import c01, c03, c10, c11
+    # the first thing a new connection is sent is the init echo (the client unpickles the first message as that): in create_service the
+    # construction of the Service - which sends it - precedes every other send
+    from ..cfg import cfg_of as _cfg_of, calls_in_order as _cio
+    mgr_create = repo.func(F.SRV_MGR, "ServicesManager.create_service")
+    svc_init = repo.func(F.SRV, "Service.__init__")
+    ccfg = _cfg_of(mgr_create.node)
+    ctor_nodes, send_nodes = set(), []
+    for n in ccfg.nodes:
+        if n.stmt is None or n.ast is None:
+            continue
+        for c in _cio(n.stmt if n.kind != "test" else n.ast):
+            tgt = repo.resolve_call(mgr_create, c)
+            if hasattr(tgt, "key") and tgt.key == svc_init.key:
+                ctor_nodes.add(n.id)
+            d_ = dotted(c.func) or ""
+            if d_.endswith("send_message") or d_.endswith(".send") or d_ == "send_message":
+                send_nodes.append((n.id, c))
+    if r9.require(bool(ctor_nodes), mgr_create, "connection object constructed", "create_service no longer constructs the Service of the connection"):
+        for nid_, c in send_nodes:
+            early = nid_ not in ctor_nodes and ccfg.can_reach(ccfg.entry, nid_, avoid=ctor_nodes)
+            r9.require(not early, mgr_create, "init echo is the first message",
+                       "create_service sends %s before the Service object (whose constructor sends the init echo) exists: a client that connects while its predecessor is "
+                       "still registered receives this as its first message and fails to read it as the init echo" % short(c), c)
+    for mod, ids, what in ((c01, ("R1.1", "R1.2"), "the scheme's search finds what its set-up stored"),
+                           (c03, ("R3.1",), "token / result / index wire format"),
                            (c10, ("R10.1", "R10.3"), "the server keeps and persists the accepted uploads"),
                            (c11, ("R11.1", "R11.6", "R11.8"), "the client's step flags are kept, persisted and re-synchronised")):
         for rr in mod.check(repo):
